@@ -811,6 +811,33 @@ func (ev *evaluator) applySpec(sf *specFunc, args []Expr) Val {
 		}
 		vals = append(vals, v)
 	}
+	if sf.seq {
+		var sorts []string
+		var ts []*T
+		for _, v := range vals {
+			if sl, ok := v.typ.Underlying().(*types.Slice); ok {
+				es := c.sortOf(sl.Elem())
+				arr := mkSelect(c.arrOf(ev.st, sl.Elem()), c.slRef(v.t))
+				qcounter++
+				k := atom(fmt.Sprintf("k!%d", qcounter), c.intSort())
+				intT := types.Typ[types.Int]
+				idx := c.arith(token.ADD, c.slOff(v.t), k, intT, nil)
+				body := mkIte(mkAnd(c.cmp(token.LEQ, c.I(0), k, intT), c.cmp(token.LSS, k, c.slLen(v.t), intT)), app("select", es, arr, idx), c.zero(sl.Elem()))
+				lam := app(fmt.Sprintf("lambda ((%s %s))", k.op, k.sort), arraySort(c.intSort(), es), body)
+				sorts = append(sorts, lam.sort, c.intSort())
+				ts = append(ts, lam, c.slLen(v.t))
+				continue
+			}
+			t := ev.term(v)
+			sorts = append(sorts, t.sort)
+			ts = append(ts, t)
+		}
+		rt := sev.resolveType(sf.ret)
+		name := "sq_" + sf.name
+		c.d.fun(name, sorts, c.sortOf(rt))
+		ev.x.note("sequence function " + sf.name + " is an uninterpreted function of the contents of its slice arguments")
+		return Val{t: app(name, c.sortOf(rt), ts...), typ: rt}
+	}
 	if sf.opaque {
 		n := sev
 		n.vars = map[string]Val{}
